@@ -7,7 +7,7 @@ Schedule: {'spec': {'span', 'subs': {id: scripted spec}, 'own': {'endo', 'exo', 
 """
 import numpy as np
 
-from .. import import_fsic, probes, ref_solver, spans
+from .. import import_fsic, probes, ref_solver, scripts, spans
 from ..kernel import canon
 from . import solver as S
 
@@ -175,6 +175,19 @@ def generate(rng, idx, tier, variant):
             plan, _ = S.gen_plan(rng, opts, ms, False, idx)
             plan.pop('before', None)
         ops.append({'op': 'twin', 'model': ms, 't': rng.randrange(n), 'opts': opts, 'plan': {'*': plan}, 'entry': rng.choice(['solve_t', 'solve'])})
+    if rng.random() < 0.3:
+        # the same twin over models built by the parser from scripts (their equations are real: no plan), and a linker over
+        # two of them whose lag / lead lengths must be the maxima of what the scripts read
+        progs = [scripts.gen_program(rng, max_eq=3, max_lag=2, max_lead=2) for _ in range(2)]
+        models = []
+        for prog in progs:
+            build = probes.build_options(rng, prog)
+            lg, ld = probes.expected_lags_leads(prog['lags'], prog['leads'], build)
+            models.append({'kind': 'parser', 'script': prog['script'], 'names': prog['names'], 'endo': prog['endo'], 'declared': prog['declared'], 'lags': lg, 'leads': ld, 'lags_script': prog['lags'], 'leads_script': prog['leads'], 'build': build, 'init': scripts.gen_data(rng, prog, max(n, lg + ld + 1))})
+        opts = S.gen_opts(rng, False)
+        opts.update(errors=rng.choice(['raise', 'ignore', 'skip']), failures=rng.choice(['raise', 'ignore']), tol=rng.choice([1e-10, 1e-6, 2.0**-10]), max_iter=rng.choice([1, 2, 5, 30, 100]), offset=rng.choice([0, 0, -1, 1]))
+        opts['min_iter'] = min(opts['min_iter'], opts['max_iter'])
+        ops.append({'op': 'parser_twin', 'models': models, 't': rng.randrange(64), 'opts': opts, 'entry': rng.choice(['solve_t', 'solve', 'solve_all'])})
     return {'spec': spec, 'ops': ops}
 
 
@@ -419,6 +432,9 @@ def execute(schedule, ctx):
             continue
         if kind == 'twin':
             do_twin(fsic, spec, op, ctx, chk)
+            continue
+        if kind == 'parser_twin':
+            do_parser_twin(fsic, spec, op, ctx, chk)
             continue
         if kind == 'copy':
             import copy as _copy
@@ -747,6 +763,74 @@ def execute(schedule, ctx):
 
 def _resync(L, snap):
     return None
+
+
+def do_parser_twin(fsic, spec, op, ctx, chk):
+    """Models built by the parser from scripts: a linker over two of them has the maxima of their lag / lead lengths; a
+    linker that wraps one of them solves it as it solves on its own."""
+    classes = [probes.build_parser_class(fsic, mdl, ctx) for mdl in op['models']]
+    if any(c is None for c in classes):
+        return
+    m0 = op['models'][0]
+    need = max(mdl['lags'] + mdl['leads'] + 1 for mdl in op['models'])
+    n = max(len(spans.make_span(spec['span'])), need)
+    sp = dict(spec['span'], n=n)
+
+    def fresh(cls, mdl):
+        x = cls(spans.make_span(sp))
+        for nm, vals in mdl['init'].items():
+            if nm in x.__dict__['index']:
+                vals = (list(vals) * (n // max(1, len(vals)) + 1))[:n]
+                x.__dict__['_' + nm][:] = vals
+        return x
+
+    both = fsic.BaseLinker({'A': fresh(classes[0], m0), 'B': fresh(classes[1], op['models'][1])})
+    want = (max(mdl['lags'] for mdl in op['models']), max(mdl['leads'] for mdl in op['models']))
+    ctx.probe('linker-over-parser-built-models')
+    chk('construction/lags-leads-are-maxima', (both.LAGS, both.LEADS) == want and (both.lags, both.leads) == want, {'got': [both.LAGS, both.LEADS], 'want': list(want), 'scripts': [mdl['script'][:120] for mdl in op['models']]})
+    bare, inner = fresh(classes[0], m0), fresh(classes[0], m0)
+    LK = fsic.BaseLinker({'A': inner})
+    opts = S.solver_kwargs(op['opts'])
+    t = op['t'] % n
+    if opts['offset'] and not (0 <= t + opts['offset'] < n):
+        opts['offset'] = 0
+
+    def run(obj):
+        try:
+            if op['entry'] == 'solve_all':
+                return ('return', canon(obj.solve(**opts)[2]))
+            if op['entry'] == 'solve':
+                lab = obj.__dict__['span'][t]
+                return ('return', canon(obj.solve(start=lab, end=lab, **opts)[2]))
+            return ('return', canon(obj.solve_t(t, **opts)))
+        except Exception as ex:
+            return ('raise', type(ex).__name__)
+
+    import warnings as _w
+
+    with _w.catch_warnings():
+        _w.simplefilter('ignore')
+        ob, ol = run(bare), run(LK)
+    ctx.probe('linker-of-one-twin:parser-built')
+    pb, pi = ref_solver.snapshot(bare), ref_solver.snapshot(inner)
+    ctx.count('steps', 2)
+    if ob[0] == 'raise' and ol[0] == 'raise':
+        # (both refuse or fail: the linker has no numerical-error policy of its own to compare)
+        ctx.outcome('parser_twin', 'both-raise')
+        return
+    if op['opts']['errors'] != 'raise' or ob[0] == 'raise' or ol[0] == 'raise':
+        nonfinite = any(not np.all(np.isfinite(a)) for nm, a in pb.items() if a.dtype.kind == 'f') or any(not np.all(np.isfinite(a)) for nm, a in pi.items() if a.dtype.kind == 'f')
+        if nonfinite or ob[0] != ol[0]:
+            ctx.probe('parser-twin:numerical-fault-met')  # the text prescribes nothing for non-finite values in a linker
+            ctx.outcome('parser_twin', 'fault')
+            return
+    chk('linker-of-one/outcome', ob == ol, {'bare': ob, 'linker': ol, 'opts': opts, 'script': m0['script'][:200]})
+    cells = ref_solver.diff_cells(pb, pi)
+    chk('linker-of-one/values', not [c for c in cells if c[0] not in ('status', 'iterations')], {'differs': cells[:6], 'script': m0['script'][:200]})
+    chk('linker-of-one/status', not [c for c in cells if c[0] == 'status'], {'differs': cells[:6]})
+    chk('linker-of-one/iterations', not [c for c in cells if c[0] == 'iterations'], {'differs': cells[:6]})
+    ctx.log(ctx.step, 'parser_twin', ob, ol)
+    ctx.outcome('parser_twin', ob[0])
 
 
 def do_twin(fsic, spec, op, ctx, chk):
